@@ -1,6 +1,7 @@
 (* Model of the generic part of alg/dict (C01): dictsumchain and primitive.
    A dictionary sum is a list of terms (D, E) meaning D * 2^E.  The decomposers are in
-   model/Decomp.v (C09). *)
+   model/Decomp.v (C09), which has its own record type for terms and its own sum_int over N;
+   files that import both qualify the names (Dict.sum_int / Decomp.sum_int). *)
 From Coq Require Import String.
 From Coq Require Import List NArith ZArith Bool Arith.
 From AV Require Import model.Proto model.Chain model.Program model.Bits model.Lists.
@@ -104,7 +105,12 @@ Definition sort_by_e (l : list (Z * N)) : list (Z * N) := fold_right insert_by_e
 Definition primitive (sum : list (Z * N)) (c : list Z) (order : option (list (Z * N)))
   : outcome (list (Z * N) * list Z) :=
   match sum with
-  | [_] => Ok (sum, c)
+  | [_] =>
+      (* early return: the sum is handed back untouched; an observed order must be that very sum *)
+      match order with
+      | None => Ok (sum, c)
+      | Some o => if is_perm o sum then Ok (sum, c) else Err ($"sortoracle")
+      end
   | _ =>
     let n := length c in
     obind (program c) (fun p =>
